@@ -894,6 +894,11 @@ class OneToOne(dict):
             self[key] = default
         return self[key]
 
+    def __ior__(self, other):
+        # dict.__ior__ would only update this side of the mapping
+        self.update(other)
+        return self
+
     def update(self, dict_or_iterable, **kw):
         keys_vals = []
         if isinstance(dict_or_iterable, dict):
